@@ -3,6 +3,10 @@
 Without argument the repaired logic (`fixed := true`) is run; with `current` the logic of the unpatched code,
 which is what the check uses to classify a crash of the real code as one of the recorded findings.
 
+`sqfsmodel c05 sens` — self-test of the input generators: every line is answered by the model of the tree and by the
+mutated models of `Sqfs/Model/ReaderMut.lean` that belong to the operation (from the same state); the answer is
+`<answer>\t<names of the mutants that answer differently, comma separated>[\tSTALE <answer of the unmutated copies>]`.
+
 Every answer line is followed, on the same line, by ` UNSAFE <buf>:<off>+<len>><cap>` for the first access that
 is not inside its buffer (the specification predicate of the property, evaluated on the model's access list).
 -/
@@ -10,8 +14,9 @@ import Driver.Util
 import Sqfs.Model.ReaderEnv
 import Sqfs.Model.ReaderWalk
 import Sqfs.Model.ReaderTables
+import Sqfs.Model.ReaderMut
 namespace Driver.C05
-open Sqfs.ReaderBounds Sqfs.ReaderEnv Sqfs.ReaderWalk Sqfs.ReaderTables
+open Sqfs.ReaderBounds Sqfs.ReaderEnv Sqfs.ReaderWalk Sqfs.ReaderTables Sqfs.ReaderMut
 
 structure St where
   fixed : Bool
@@ -63,44 +68,73 @@ def showRes (r : Res) : String :=
    | .ok () => showPos r.st
    | .error e => "err " ++ e.name) ++ unsafeTag r.acc
 
+/-! ### mutant selection (`mu = 0`: the functions the theorems are about; otherwise the copies of `ReaderMut`) -/
+def seekX (mu : Nat) := if mu == 0 then seekG else seekM mu
+def mreadX (mu : Nat) := if mu == 0 then mread else mreadM mu
+def getBlockX (mu : Nat) := if mu == 0 then getBlock else getBlockM mu
+def getFragmentX (mu : Nat) := if mu == 0 then getFragment else getFragmentM mu
+def streamFillX (mu : Nat) := if mu == 0 then streamFill else streamFillM mu
+def dataReadX (mu : Nat) := if mu == 0 then dataRead else dataReadM mu
+def readInodeFileX (mu : Nat) := if mu == 0 then readInodeFile else readInodeFileM mu
+def readInodeSlinkX (mu : Nat) := if mu == 0 then readInodeSlink else readInodeSlinkM mu
+def readInodeDirExtX (mu : Nat) := if mu == 0 then readInodeDirExt else readInodeDirExtM mu
+def readDirEntX (mu : Nat) := if mu == 0 then readDirEnt else readDirEntM mu
+def unpackIdxX (mu : Nat) := if mu == 0 then unpackIdx else unpackIdxM mu
+def indexToIdX (mu : Nat) := if mu == 0 then indexToId else indexToIdM mu
+def fragLookupX (mu : Nat) := if mu == 0 then fragLookup else fragLookupM mu
+def superReadX (mu : Nat) := if mu == 0 then superRead else superReadM mu
+def idTableReqX (mu : Nat) := if mu == 0 then idTableReq else idTableReqM mu
+def fragTableReqX (mu : Nat) := if mu == 0 then fragTableReq else fragTableReqM mu
+def xattrLoadX (mu : Nat) := if mu == 0 then xattrLoad else xattrLoadM mu
+def xattrGetDescX (mu : Nat) := if mu == 0 then xattrGetDesc else xattrGetDescM mu
+def kvReadValueX (mu : Nat) := if mu == 0 then kvReadValue else kvReadValueM mu
+def readdirStepX (mu : Nat) := if mu == 0 then readdirStep else readdirStepM mu
+def dirEntryFromInodeX (mu : Nat) := if mu == 0 then dirEntryFromInode else dirEntryFromInodeM mu
+
+/-- `ReaderEnv.precacheFrag` with the selected `get_block` -/
+def precacheFragX (mu : Nat) (im : ByteArray) (bs : UInt32) (fragIdx : UInt32) (fstart : UInt64) (fword : UInt32) :
+    Except Err UInt64 × List Access :=
+  if fragIdx ≥ 1 then (.error .oob, [])
+  else getBlockX mu bs .fragBlock fword bs (blkLoad im fstart fword bs)
+
 /-- the stream loop of the harness: `get_buffered_data` / `advance_buffer` until eof or error, and then `extra`
 more calls on the same stream (what a failed call leaves behind is part of the comparison) -/
-def streamLoop (fixed : Bool) (im : ByteArray) (bs : UInt32) (words : Array UInt32) (fragIdx fragOff : UInt32)
+def streamLoop (mu : Nat) (fixed : Bool) (im : ByteArray) (bs : UInt32) (words : Array UInt32) (fragIdx fragOff : UInt32)
     (fstart : UInt64) (fword : UInt32) : Nat → Nat → StreamSt → UInt64 → String → List Access → String × List Access
   | 0, _, _, _, out, acc => (out ++ "toolong", acc)
   | fuel + 1, extra, s, diskOff, out, acc =>
     let w := words.getD s.blkIdx.toNat 0
     let want := if s.filesz < bs.toUInt64 then s.filesz.toUInt32 else bs
     let l := blkLoad im diskOff w want
-    let pre := precacheFrag im bs fragIdx fstart fword
+    let pre := precacheFragX mu im bs fragIdx fstart fword
     let needFrag := !(s.bufOff < s.bufUsed) && s.filesz != 0 && !(s.blkIdx < s.blkCount)
-    let r := streamFill fixed bs s w l pre.1 fragOff
+    let r := streamFillX mu fixed bs s w l pre.1 fragOff
     let acc := acc ++ (if needFrag then pre.2 else []) ++ r.2.2
     let diskOff' := if s.blkIdx < s.blkCount && !(s.bufOff < s.bufUsed) && s.filesz != 0 then diskOff + (onDiskSize w).toUInt64 else diskOff
     match r.2.1 with
     | .eof =>
       if extra == 0 then (out ++ "eof", acc)
-      else streamLoop fixed im bs words fragIdx fragOff fstart fword fuel (extra - 1) r.1 diskOff (out ++ "eof ") acc
+      else streamLoop mu fixed im bs words fragIdx fragOff fstart fword fuel (extra - 1) r.1 diskOff (out ++ "eof ") acc
     | .err e =>
       if extra == 0 then (out ++ "err " ++ e.name, acc)
-      else streamLoop fixed im bs words fragIdx fragOff fstart fword fuel (extra - 1) r.1 diskOff (out ++ "err " ++ e.name ++ " ") acc
+      else streamLoop mu fixed im bs words fragIdx fragOff fstart fword fuel (extra - 1) r.1 diskOff (out ++ "err " ++ e.name ++ " ") acc
     | .data n =>
       let s' := r.1
       -- advance_buffer(sz): buf_off += min(buf_used - buf_off, sz)
-      streamLoop fixed im bs words fragIdx fragOff fstart fword fuel extra { s' with bufOff := s'.bufOff + n } diskOff'
+      streamLoop mu fixed im bs words fragIdx fragOff fstart fword fuel extra { s' with bufOff := s'.bufOff + n } diskOff'
         (out ++ toString n ++ " ") acc
 
 def bytesToImage (l : List UInt8) : ByteArray := ByteArray.mk l.toArray
 
 /-- predicted outcome of `sqfs_meta_reader_read_inode` on one uncompressed block holding `b` -/
-def inodeOp (bs : UInt64) (b : ByteArray) : String :=
+def inodeOp (mu : Nat) (bs : UInt64) (b : ByteArray) : String :=
   let n := b.size
   if n < 16 then "err" else
   let ty := (le16 b 0).toNat
   let need (k : Nat) : Bool := 16 + k ≤ n
   let fileLike (hdr : Nat) (fsz : UInt64) (fi fo : UInt32) : String :=
     if !need hdr then "err" else
-    match readInodeFile fsz bs fi fo with
+    match readInodeFileX mu fsz bs fi fo with
     | .error _ => "err"
     | .ok acc =>
       let len := (acc.headD ⟨.inodeExtra, 0, 0, 0⟩).len
@@ -108,7 +142,7 @@ def inodeOp (bs : UInt64) (b : ByteArray) : String :=
   let slinkLike (extra : Nat) : String :=
     if !need 8 then "err" else
     let ts := le32 b 20
-    match readInodeSlink ts with
+    match readInodeSlinkX mu ts with
     | .error _ => "err"
     | .ok acc => if 16 + 8 + ts.toNat + extra ≤ n then s!"ok {ty} {ts.toNat}" ++ unsafeTag acc else "err"
   let fixedSz (k : Nat) : String := if need k then s!"ok {ty} 0" else "err"
@@ -135,7 +169,7 @@ def inodeOp (bs : UInt64) (b : ByteArray) : String :=
     match go cnt 40 [] with
     | none => "err"
     | some szs =>
-      match readInodeDirExt dsz szs with
+      match readInodeDirExtX mu dsz szs with
       | .error _ => "err"
       | .ok (_, iu, acc) => s!"ok {ty} {iu.toNat % 4294967296}" ++ unsafeTag acc
   | 9 => if need 40 then fileLike 40 (le64 b 24) (le32 b 44) (le32 b 48) else "err"
@@ -206,13 +240,13 @@ def stateNum : DState → Nat
 
 /-- `dirlist`: `sqfs_dir_reader_open_dir` (no dot entries) + `sqfs_dir_reader_read` until the end; the counters are
 `readdirStep`, header and entry fields come from the image through the meta reader model -/
-def dirlistLoop (im : ByteArray) (c : MetaCfg) : Nat → MetaSt → (block offset : UInt64) → RdState → (inodeBlock : UInt64) →
+def dirlistLoop (mu : Nat) (im : ByteArray) (c : MetaCfg) : Nat → MetaSt → (block offset : UInt64) → RdState → (inodeBlock : UInt64) →
     (n names refs : Nat) → List Access → String × List Access
   | 0, _, _, _, _, _, n, names, refs, acc => (s!"n={n} names={names} refs={refs} toolong", acc)
   | fuel + 1, m, block, offset, rs, inodeBlock, n, names, refs, acc =>
     let fin (t : String) (acc : List Access) := (s!"n={n} names={names} refs={refs} " ++ t, acc)
     -- readdir.c:101  `if (it->size <= sizeof(hdr)) goto out_eof;` comes before the header is read
-    if rs.entries == 0 && rs.size ≤ szDirHeader.toUInt64 then fin "eof" acc
+    if rs.entries == 0 && leM mu 44 rs.size.toNat szDirHeader then fin "eof" acc
     else
       -- header, if a new run of entries starts
       let hdr : Except Err (MetaSt × UInt64 × UInt64 × UInt32 × UInt64) × List Access :=
@@ -227,7 +261,7 @@ def dirlistLoop (im : ByteArray) (c : MetaCfg) : Nat → MetaSt → (block offse
             | .error e => (.error e, r.acc ++ r2.acc)
             | .ok () =>
               let count := aLe32 b 0
-              if count > (Sqfs.Consts.maxDirEnt - 1).toUInt32 then (.error .corrupted, r.acc ++ r2.acc)
+              if gtM mu 46 count.toNat (Sqfs.Consts.maxDirEnt - 1) then (.error .corrupted, r.acc ++ r2.acc)
               else
                 let p := getPosition r2.st
                 (.ok (r2.st, p.1, p.2, count, (aLe32 b 4).toUInt64), r.acc ++ r2.acc)
@@ -237,7 +271,7 @@ def dirlistLoop (im : ByteArray) (c : MetaCfg) : Nat → MetaSt → (block offse
       | (.ok (m1, block1, offset1, count, inodeBlock1), a) =>
         let acc := acc ++ a
         -- readdir.c:120  `if (it->size <= sizeof(**ent)) goto out_eof;` (the counters say so: `readdirStep` = none)
-        if (readdirStep rs count 0).isNone then fin "eof" acc else
+        if (readdirStepX mu rs count 0).isNone then fin "eof" acc else
         let r := seek c m1 block1 offset1
         match r.r with
         | .error e => fin ("err " ++ e.name) (acc ++ r.acc)
@@ -250,15 +284,15 @@ def dirlistLoop (im : ByteArray) (c : MetaCfg) : Nat → MetaSt → (block offse
             let entOff := aLe16 b 0
             let size := aLe16 b 6
             let r3 := mread true c r2.st (size.toUInt64 + 1)
-            let acc := acc ++ r.acc ++ r2.acc ++ readDirEnt size ++ r3.acc
+            let acc := acc ++ r.acc ++ r2.acc ++ readDirEntX mu size ++ r3.acc
             match r3.r with
             | .error e => fin ("err " ++ e.name) acc
             | .ok () =>
               let p := getPosition r3.st
-              match readdirStep rs count size with
+              match readdirStepX mu rs count size with
               | none => fin "eof" acc        -- not reached: tested above
               | some rs' =>
-                dirlistLoop im c fuel r3.st p.1 p.2 rs' inodeBlock1 (n + 1) (names + size.toNat + 1)
+                dirlistLoop mu im c fuel r3.st p.1 p.2 rs' inodeBlock1 (n + 1) (names + size.toNat + 1)
                   ((refs + (entryRef inodeBlock1 entOff).toNat) % 4294967296) acc
 
 /-- `walk`: the repaired walks (visited set, nesting limit `limit` = `SQFS_MAX_DIR_NESTING` of the tree; fuel as in
@@ -273,7 +307,7 @@ def walkOp (fixed : Bool) (limit : Nat) (spec : String) : String :=
       "tree " ++ showWalk (readTree g (n + 2) root) ++ " tar " ++ showWalk (tarWalk true g (n + 3) root)
   | none => "bad-op"
 
-def step (s : St) (line : String) : St × String :=
+def stepM (mu : Nat) (s : St) (line : String) : St × String :=
   match words line with
   | ["img", h] => match fromHex h with
       | some b => ({ s with img := bytesToImage b, cfg := none, m := MetaSt.init }, "ok")
@@ -283,23 +317,23 @@ def step (s : St) (line : String) : St × String :=
       | _, _ => (s, "bad-op")
   | ["seek", a, b] => match s.cfg, u64 a, u64 b with
       | some c, some a, some b =>
-        let r := seekG s.fixed (mkCfg s c) s.m a b
+        let r := seekX mu s.fixed (mkCfg s c) s.m a b
         ({ s with m := r.st }, showRes r)
       | _, _, _ => (s, "bad-op")
   | ["read", a] => match s.cfg, u64 a with
       | some c, some a =>
-        let r := mread s.fixed (mkCfg s c) s.m a
+        let r := mreadX mu s.fixed (mkCfg s c) s.m a
         ({ s with m := r.st }, showRes r)
       | _, _ => (s, "bad-op")
   | ["getfrag", bs, filesz, nblk, fidx, foff, fstart, fword] =>
       match u32 bs, u64 filesz, u64 nblk, u32 fidx, u32 foff, u64 fstart, u32 fword with
       | some bs, some filesz, some nblk, some fidx, some foff, some fstart, some fword =>
         if bs == 0 then (s, "bad-op") else
-        let pre := precacheFrag s.img bs fidx fstart fword
+        let pre := precacheFragX mu s.img bs fidx fstart fword
         let preU : Except Err Unit := match pre.1 with | .ok _ => .ok () | .error e => .error e
         -- the precache only happens when the fragment is needed
         let needs := !(nblk > 0xFFFFFFFFFFFFFFFF / bs.toUInt64) && !(nblk * bs.toUInt64 ≥ filesz)
-        let out := match getFragment s.fixed bs filesz nblk foff preU with
+        let out := match getFragmentX mu s.fixed bs filesz nblk foff preU with
           | .error e => "err " ++ e.name ++ unsafeTag (if needs then pre.2 else [])
           | .ok acc =>
             let sz := (acc.headD ⟨.fragOut, 0, 0, 0⟩).len
@@ -311,7 +345,7 @@ def step (s : St) (line : String) : St × String :=
       | some bs, some filesz, some start, some fidx, some foff, some fstart, some fword, some ws =>
         if bs == 0 then (s, "bad-op") else
         let st : StreamSt := ⟨0, 0, filesz, 0, ws.size.toUInt32, false⟩
-        let r := streamLoop s.fixed s.img bs ws fidx foff fstart fword 4104 2 st start "" []
+        let r := streamLoop mu s.fixed s.img bs ws fidx foff fstart fword 4104 2 st start "" []
         (s, r.1 ++ unsafeTag r.2)
       | _, _, _, _, _, _, _, _ => (s, "bad-op")
   | ["getblk", bs, filesz, start, idx, ws] =>
@@ -321,7 +355,7 @@ def step (s : St) (line : String) : St × String :=
         if idx ≥ ws.size then (s, "err OOB") else
         let (off, unpacked) := blockLocation bs ws start filesz idx
         let w := ws.getD idx 0
-        let r := getBlock bs .blockOut w unpacked (blkLoad s.img off w unpacked)
+        let r := getBlockX mu bs .blockOut w unpacked (blkLoad s.img off w unpacked)
         (s, (match r.1 with | .ok n => s!"ok {n}" | .error e => "err " ++ e.name) ++ unsafeTag r.2)
       | _, _, _, _, _ => (s, "bad-op")
   | ["dread", bs, filesz, start, fidx, foff, fstart, fword, off, size, ws] =>
@@ -331,26 +365,26 @@ def step (s : St) (line : String) : St × String :=
         let blkOk := fun (i : Nat) =>
           let (o, _) := blockLocation bs ws start 0 i
           let w := ws.getD i 0
-          match (getBlock bs .dataBlock w bs (blkLoad s.img o w bs)).1 with | .ok _ => true | .error _ => false
-        let pre := precacheFrag s.img bs fidx fstart fword
-        let r := dataRead bs (fun i => ws.getD i 0) blkOk ws.size filesz off size foff pre.1
+          match (getBlockX mu bs .dataBlock w bs (blkLoad s.img o w bs)).1 with | .ok _ => true | .error _ => false
+        let pre := precacheFragX mu s.img bs fidx fstart fword
+        let r := dataReadX mu bs (fun i => ws.getD i 0) blkOk ws.size filesz off size foff pre.1
         (s, (match r.1 with | .ok n => s!"ok {n}" | .error _ => "err") ++ unsafeTag r.2)
       | _, _, _, _, _, _, _, _, _, _ => (s, "bad-op")
   | ["inode", bs, h] => match u64 bs, fromHex h with
-      | some bs, some b => if bs == 0 then (s, "bad-op") else (s, inodeOp bs (bytesToImage b))
+      | some bs, some b => if bs == 0 then (s, "bad-op") else (s, inodeOp mu bs (bytesToImage b))
       | _, _ => (s, "bad-op")
   | ["dirent", h] => match fromHex h with
       | some b =>
         let im := bytesToImage b
         if im.size < 8 then (s, "err") else
         let sz := le16 im 6
-        if 8 + sz.toNat + 1 ≤ im.size then (s, s!"ok {sz}" ++ unsafeTag (readDirEnt sz)) else (s, "err")
+        if 8 + sz.toNat + 1 ≤ im.size then (s, s!"ok {sz}" ++ unsafeTag (readDirEntX mu sz)) else (s, "err")
       | none => (s, "bad-op")
   | ["unpack", used, idx, h] => match u32 used, u64 idx, fromHex h with
       | some used, some idx, some b =>
         let im := bytesToImage b
         let szAt := fun (o : UInt64) => le32 im (o.toNat + 8)
-        let r := unpackIdx s.fixed used szAt (idx.toNat + 2) 0 idx []
+        let r := unpackIdxX mu s.fixed used szAt (idx.toNat + 2) 0 idx []
         -- the size field of the entry that was found = the last header read
         let out := match r.1 with
           | .error e => "err " ++ e.name
@@ -368,7 +402,7 @@ def step (s : St) (line : String) : St × String :=
   | ["super", h] => match fromHex h with
       | some b =>
         let im := bytesToImage b
-        let r := superRead (readFails im 0 Sqfs.Consts.sizeofSuper) (parseSuper im)
+        let r := superReadX mu (readFails im 0 Sqfs.Consts.sizeofSuper) (parseSuper im)
         (s, showR r.1 ++ unsafeTag r.2)
       | none => (s, "bad-op")
   | ["sb", fl, idc, frc, bu, idt, xat, ino, dts, fts, ets, root, bs] =>
@@ -382,7 +416,7 @@ def step (s : St) (line : String) : St × String :=
         ({ s with sb := sb }, "ok")
       | _, _, _, _, _, _, _, _, _, _, _, _ => (s, "bad-op")
   | ["idtable"] =>
-      match idTableReq s.sb with
+      match idTableReqX mu s.sb with
       | .error e => ({ s with ids := #[], idUsed := 0 }, "err " ++ e.name)
       | .ok req =>
         match readTableEnv s.img req with
@@ -391,12 +425,12 @@ def step (s : St) (line : String) : St × String :=
           let r := idTableRead s.sb (.ok ())
           ({ s with ids := tbl, idUsed := s.sb.idCount.toUInt64 }, showR r.1 ++ unsafeTag (acc ++ r.2))
   | ["idx", i] => match u16 i with
-      | some i => match indexToId s.idUsed i with
+      | some i => match indexToIdX mu s.idUsed i with
         | .error e => (s, "err " ++ e.name)
         | .ok acc => (s, s!"ok {aLe32 s.ids (i.toNat * 4)}" ++ unsafeTag acc)
       | none => (s, "bad-op")
   | ["fragtable"] =>
-      match fragTableReq s.sb with
+      match fragTableReqX mu s.sb with
       | .error e => ({ s with frags := #[], fragUsed := 0 }, "err " ++ e.name)
       | .ok none => ({ s with frags := #[], fragUsed := 0 }, "ok")
       | .ok (some req) =>
@@ -404,21 +438,21 @@ def step (s : St) (line : String) : St × String :=
         | (.error e, acc) => ({ s with frags := #[], fragUsed := 0 }, "err " ++ e.name ++ unsafeTag acc)
         | (.ok tbl, acc) => ({ s with frags := tbl, fragUsed := s.sb.fragCount.toUInt64 }, "ok" ++ unsafeTag acc)
   | ["fragidx", i] => match u32 i with
-      | some i => match fragLookup s.fragUsed i with
+      | some i => match fragLookupX mu s.fragUsed i with
         | .error e => (s, "err " ++ e.name)
         | .ok acc => (s, s!"ok {aLe64 s.frags (i.toNat * 16)} {aLe32 s.frags (i.toNat * 16 + 8)}" ++ unsafeTag acc)
       | none => (s, "bad-op")
   | ["xnew"] => ({ s with x := XattrSt.init, xpos := false }, "ok")
   | ["xload"] =>
       let st := s.sb.xattrIdTableStart
-      let r := xattrLoad s.sb s.x (readFails s.img st szXattrIdTable) (le64 s.img st.toNat) (le32 s.img (st.toNat + 8))
+      let r := xattrLoadX mu s.sb s.x (readFails s.img st szXattrIdTable) (le64 s.img st.toNat) (le32 s.img (st.toNat + 8))
         (readFails s.img (st + szXattrIdTable.toUInt64) (8 * (xattrIdBlocks (le32 s.img (st.toNat + 8)).toUInt64).toNat))
         (fun i => le64 s.img ((st + szXattrIdTable.toUInt64).toNat + 8 * i))
       ({ s with x := r.st, xpos := false }, showR r.r ++ unsafeTag r.acc)
   | ["xdesc", i] => match u32 i with
       | some i =>
         let c := xCfg s
-        let r := xattrGetDesc c s.x i
+        let r := xattrGetDescX mu c s.x i
         -- the descriptor the call delivers: zeroes unless the table was read
         let read := i != 0xFFFFFFFF && s.x.loaded && i.toUInt64 < s.x.numIds
         let pos := i.toUInt64 * szXattrId.toUInt64
@@ -454,7 +488,7 @@ def step (s : St) (line : String) : St × String :=
         let m2 := (mread true c m1 8).st
         let m3 := (seek c m2 (s.x.xattrStart + (ref >>> 16)) (ref &&& 0xFFFF)).st
         let a : KvAns := if isOol t then ⟨t, 0, aLe32 (envRead s.img c m3 4) 0, ref⟩ else ⟨t, 0, aLe32 v 0, 0⟩
-        let r := kvReadValue c s.x.xattrStart s.x.xattrEnd a s.x.kvrd
+        let r := kvReadValueX mu c s.x.xattrStart s.x.xattrEnd a s.x.kvrd
         ({ s with x := { s.x with kvrd := r.st } }, (match r.r with
           | .ok () => s!"ok {a.vsize}"
           | .error e => "err " ++ e.name) ++ unsafeTag r.acc)
@@ -509,14 +543,14 @@ def step (s : St) (line : String) : St × String :=
         match openDir false 0 s.sb.dirTableStart s.sb.rootRef (fun _ => none) ⟨8, sblk, off, sz, 1, 1⟩ with
         | .error e => (s, "err " ++ e.name)
         | .ok st =>
-          let r := dirlistLoop s.img c 5001 MetaSt.init st.block st.offset ⟨st.size, 0⟩ 0 0 0 0 []
+          let r := dirlistLoop mu s.img c 5001 MetaSt.init st.block st.offset ⟨st.size, 0⟩ 0 0 0 0 []
           (s, r.1 ++ unsafeTag r.2)
       | _, _, _ => (s, "bad-op")
   | ["dentry", used, ui, gi, len, nm] =>
       match u64 used, u16 ui, u16 gi, u64 len, fromHex nm with
       | some used, some ui, some gi, some len, some nm =>
         if len.toNat > nm.length + 1 then (s, "bad-op") else
-        let r := dirEntryFromInode used ui gi nm len
+        let r := dirEntryFromInodeX mu used ui gi nm len
         (s, (match r.1 with
           | .ok () => s!"ok {entryNameLen nm len}"
           | .error e => "err " ++ e.name) ++ unsafeTag r.2)
@@ -530,8 +564,30 @@ def step (s : St) (line : String) : St × String :=
       | none => (s, "bad-op")
   | _ => (s, "bad-op")
 
+def step (s : St) (line : String) : St × String := stepM 0 s line
+
+/-- `sens` mode: the answer of the model, the mutants of the operation that answer differently from the same state, and
+whether the unmutated copies agree with the originals -/
+def sensStep (s : St) (line : String) : St × String :=
+  let (s', base) := stepM 0 s line
+  let op := (words line).headD ""
+  let sites := opSites op
+  if sites.isEmpty then (s', base ++ "\t") else
+  let killed := (sites.flatMap fun k => [2 * k + 1, 2 * k + 2]).filter fun mu => (stepM mu s line).2 != base
+  let copy := (stepM copyId s line).2
+  (s', base ++ "\t" ++ ",".intercalate (killed.map mutName) ++ (if copy != base then "\tSTALE " ++ copy else ""))
+
 def run (args : List String) : IO Unit := do
+  if args.contains "sens-mutants" then
+    -- the list of mutants, for the floors table of the check
+    for k in [0:siteNames.size] do
+      IO.println (mutName (2 * k + 1))
+      IO.println (mutName (2 * k + 2))
+    return
   let fixed := !(args.contains "current")
-  stateLoop (← IO.getStdin) (← IO.getStdout) step ({ fixed := fixed } : St)
+  if args.contains "sens" then
+    stateLoop (← IO.getStdin) (← IO.getStdout) sensStep ({ fixed := fixed } : St)
+  else
+    stateLoop (← IO.getStdin) (← IO.getStdout) step ({ fixed := fixed } : St)
 
 end Driver.C05
